@@ -242,3 +242,87 @@ func TestC07FsCreate(t *testing.T) {
 }
 
 var _ = strings.Contains
+
+// ---- fault runs: one fsync inside a StoreLogs fails (strace fault injection), the call is retried;
+// the durability discipline must hold at the retried acknowledgement as well.
+
+type FaultCase struct {
+	W   wl.Workload `json:"w"`
+	Sel int         `json:"sel"` // which of the fsyncs issued inside StoreLogs calls fails
+}
+
+func straceRun(work string, w wl.Workload, inject string) ([]Sys, string, string, error) {
+	dir := filepath.Join(work, "wal")
+	os.RemoveAll(dir)
+	os.Mkdir(dir, 0o755)
+	b, _ := json.Marshal(w)
+	wf := filepath.Join(work, "w.json")
+	os.WriteFile(wf, b, 0o644)
+	tf := filepath.Join(work, "trace.txt")
+	args := []string{"-f", "-y", "-qq", "-s", "0", "-e", straceSet}
+	if inject != "" {
+		args = append(args, "-e", inject)
+	}
+	args = append(args, "-o", tf, tracebin(), wf, dir)
+	cmd := exec.Command("strace", args...)
+	var stderr bytes.Buffer
+	cmd.Stderr = &stderr
+	err := cmd.Run()
+	calls, perr := Parse(tf)
+	if perr != nil {
+		return nil, dir, stderr.String(), perr
+	}
+	return calls, dir, stderr.String(), err
+}
+
+func TestC07Fault(t *testing.T) {
+	common.Run(t, "C07", "C07Fault", func(t *rapid.T) FaultCase {
+		w := genWorkload(t)
+		w.Retry = true
+		return FaultCase{W: w, Sel: rapid.IntRange(0, 1000).Draw(t, "sel")}
+	}, func(c FaultCase) (res common.Result) {
+		work, err := os.MkdirTemp("", "verif-tracef-")
+		if err != nil {
+			res.Fail = common.Failf("harness", "%v", err)
+			return
+		}
+		defer os.RemoveAll(work)
+		// dry run: where are the fsyncs of the marker thread inside StoreLogs calls?
+		var calls []Sys
+		var dir string
+		for attempt := 0; attempt < 3; attempt++ {
+			var stderr string
+			calls, dir, stderr, err = straceRun(work, c.W, "")
+			if err == nil && len(calls) > 10 {
+				break
+			}
+			if attempt == 2 {
+				common.Inconclusive("dry traced run failed: %v %s", err, stderr)
+			}
+		}
+		_, st := Check(calls, dir, c.W.SegSize)
+		if len(st.FsyncInStoreLogs) == 0 {
+			res.Classes = []string{"no-fsync-in-storelogs"}
+			return
+		}
+		k := st.FsyncInStoreLogs[c.Sel%len(st.FsyncInStoreLogs)]
+		calls, dir, stderr, err := straceRun(work, c.W, fmt.Sprintf("inject=fsync:error=EIO:when=%d", k))
+		if err != nil {
+			// the workload could not complete even with the retry (e.g. the injected error hit a second thread): no verdict
+			res.Classes = []string{"fault-run-incomplete"}
+			res.Note = stderr
+			return
+		}
+		v, st2 := Check(calls, dir, c.W.SegSize)
+		res.NonTrivial = st2.StoreLogsErr > 0
+		if st2.StoreLogsErr > 0 {
+			res.Classes = append(res.Classes, "storelogs-failed-then-retried")
+		} else {
+			res.Classes = append(res.Classes, "fault-not-inside-storelogs")
+		}
+		if v != nil && v.Sig != "set-before-fsync" {
+			res.Fail = common.Failf("after-fsync-fault/"+v.Sig, "with fsync #%d of the API thread failing once (EIO) and the failed StoreLogs retried: %s", k, v.Msg)
+		}
+		return
+	})
+}
